@@ -1,7 +1,7 @@
 (* Props/C18.v -- C18: case, spacing and comments never change output; literals mean what the docs say.
    The name tables are regenerated from /repo's source on every run (Gen/Tables.v), so (1) is re-proved
    against what the code says now. *)
-From Az65 Require Import Base Token Utf8 Lexer LexerFacts.
+From Az65 Require Import Base Token Utf8 Lexer LexerFacts NamesFacts.
 From Az65.Gen Require Import Tables.
 
 (* (1) Every entry of every name table (directives; Z80, SM83, 6502 mnemonics, registers, flags) has
